@@ -19,7 +19,8 @@ META = {
         '(attribute, method, arithmetic) to v2 unless v2\'s kind was tested, and Grid.__eq__ covers metadata keys '
         'and values, column keys, column-meta sizes and values, row count and every column of every row.  '
         'Also (D3): per-kind components of _approx_check (datetime: zone, date, time; Quantity: unit, value; Coordinate: latitude, longitude) all enter the comparison; the float branch is exact tests plus ONE absolute tolerance in [5e-7, 1e-6] (relative or operand-dependent bounds are violations); (D1) __hash__ reads a field through the same coarsening (round/lower/...) that __eq__ compares.  Also (D1): __ne__ written as `not self.__eq__(other)` is refused when __eq__ answers NotImplemented for foreign kinds.  Not decided: reflexivity/symmetry over all pairs as executions; the float tolerance itself.'
-        " Also (D1): the unit test of Qty._cmp_op tells apart exactly the units __hash__ tells apart (decision table).  (D3) C16's refusal clause: nothing is written to a metadata/column map before the validator accepted the value, so a refused update cannot leave a key without value (Grid.__eq__ would raise KeyError)."),
+        " Also (D1): the unit test of Qty._cmp_op tells apart exactly the units __hash__ tells apart (decision table).  (D3) C16's refusal clause: nothing is written to a metadata/column map before the validator accepted the value, so a refused update cannot leave a key without value (Grid.__eq__ would raise KeyError)."
+        ' Also (D3): the first branch of _approx_check that a (bool, number) pair satisfies is the boolean branch.'),
     'rule_text': 'one obligation per (class, rule) for 10 classes, per singleton fact, per _approx_check branch '
                  '(guard dominance), per coverage fact of Grid.__eq__',
     'trusted_base': ['Python falls back to the reflected __eq__ and then to identity when NotImplemented is returned; '
@@ -657,6 +658,35 @@ def _approx_symmetry(ctx, fn, v1, v2, body):
         ctx.violation('C19.D3', '%s::Grid._approx_check' % FG, 'no boolean branch',
                       'grid with the cell True == grid with the cell 1 (a marker-like boolean equals a number: another kind)',
                       '_approx_check does not keep booleans apart from numbers', file=FG, line=fn.lineno, engine='E6')
+    # ... and the boolean branch is the one a (bool, number) pair reaches: bool is an int, True == 1.0, so a numeric
+    # branch placed before it answers "equal" for True vs 1.0
+    if bool_branch:
+        from .. import minieval
+        foreign = {k: () for k in ('datetime.time', 'datetime.datetime', 'datetime.date', 'Quantity', 'Coordinate', 'XStr', 'Ref',
+                                   'Uri', 'Bin', 'Grid', 'MarkerType', 'NAType', 'RemoveType')}
+        chain = sorted([n for n in tests if getattr(n, '_parent', None) is fn or isinstance(getattr(n, '_parent', None), ast.If)
+                        and n in getattr(n._parent, 'orelse', [])], key=lambda z: z._seq)
+        for a_, b_ in ((True, 1.0), (1.0, True), (False, 0.0), (True, 1)):
+            taken = None
+            try:
+                for n in chain:
+                    if bool(minieval.ev(n.test, {v1: a_, v2: b_, '__types__': foreign})):
+                        taken = n
+                        break
+            except minieval.Undecided as e:
+                ctx.error('C19.D3', '_approx_check: branch test not decidable for a boolean operand (%s)' % e)
+                break
+            if taken is not None and taken is not bool_branch[0]:
+                ctx.violation('C19.D3', '%s::Grid._approx_check' % FG, norm(taken.test),
+                              'a grid with the cell %r against a grid with the cell %r (parse of `T` vs parse of `1`): the pair '
+                              'reaches the branch `%s` before the boolean branch; there %r == %r holds, and the two grids compare '
+                              'equal although the cells are of different kinds' % (a_, b_, norm(taken.test)[:60], a_, b_),
+                              'the boolean branch of _approx_check is not the first branch a (bool, number) pair satisfies', file=FG,
+                              line=taken.lineno, engine='E6')
+                break
+        else:
+            ctx.ob('C19.D3', 'a (bool, number) pair reaches the boolean branch first (4 representative pairs)', True,
+                   '%s:%d' % (FG, bool_branch[0].lineno))
     # the float branch: exact disjuncts plus one absolute tolerance of the documented size
     _float_branch(ctx, fn, v1, v2, tests)
 
